@@ -4,7 +4,7 @@ sys.path.insert(0, os.path.dirname(__file__))
 from _common import main
 import iso_common as R
 
-BOUND = 'writer-produced IPM files (PDS, ICC, typed fields, space-filled PDS values, element subsets) and parameter files x ordered pairs of {latin_1, cp500, cp037} x {vbs,1014}^2 through mci_ipm_encode, mideu convert (temp files), mci_ipm_param_encode and paramconv; there and back byte-for-byte; exhaustive codec bijection check on 0..255'
+BOUND = 'records of several kilobytes (3 full PDS carriers; 2024/3500/5999-byte parameter records); writer-produced IPM files (PDS, ICC, typed fields, space-filled PDS values, element subsets) and parameter files x ordered pairs of {latin_1, cp500, cp037} x {vbs,1014}^2 through mci_ipm_encode, mideu convert (temp files), mci_ipm_param_encode and paramconv; there and back byte-for-byte; exhaustive codec bijection check on 0..255'
 
 
 def msgs(rng):
@@ -20,6 +20,11 @@ def msgs(rng):
         if i % 2 == 0:
             m['PDS0158'] = 'ABC   '
             m['PDS0023'] = 'x' * rng.randint(0, 30)
+        if i == 5:
+            # one record of several kilobytes (three full PDS carriers): more than two whole 1014 blocks in a single write
+            alpha = 'ABCDEFGHIJKLMNOPQRSTUVWXYZ0123456789'
+            for t in range(1, 4):
+                m['PDS%04d' % (1000 + t)] = ''.join(alpha[(j * t + j // 7) % 36] for j in range(900))
         if i == 3:
             m['DE55'] = b'\x9f\x02\x02\xf1\x40\x9a\x01\xf0'
         out.append(m)
@@ -101,6 +106,7 @@ def oracle(inp):
         from cardutil.cli import mci_ipm_param_encode as P1, paramconv as P2
         from cardutil.mciipm import VbsWriter, vbs_bytes_to_list
         recs = [bytes(rng.randrange(256) for _ in range(rng.randint(1, 300))) for _ in range(7)]
+        recs[2:2] = [bytes(rng.randrange(256) for _ in range(n)) for n in (3500, 5999, 2024)]       # records spanning several blocks
         f = io.BytesIO()
         with VbsWriter(f, blocked=fa == '1014') as w:
             w.write_many(recs)
